@@ -234,7 +234,11 @@ def _cplx(b, name):
     if name == "plain-arg":
         return R(v) * f(), (v,), only_real
     if name == "conj-conj":
+        if rng.random() < 0.5:
+            return conj(conj(R(v))) * f(), (v,), only_real
         return conj(conj(R(v)) * f()) * f(), (v,), only_real
+    if name == "conj-conj-conj":
+        return conj(conj(conj(R(v)))) * f(), (v,), both
     if name == "real-arg":
         return ufl.real(R(v)) * f(), (v,), ("bad" if cx else None)
     if name == "imag-arg":
@@ -307,7 +311,7 @@ def _cplx(b, name):
     raise KeyError(name)
 
 
-CPLX = ["conj-arg", "plain-arg", "conj-conj", "real-arg", "imag-arg", "abs-arg", "conj-product", "conj-trial", "conj-whole-bilinear", "inner-fv",
+CPLX = ["conj-arg", "plain-arg", "conj-conj", "conj-conj-conj", "real-arg", "imag-arg", "abs-arg", "conj-product", "conj-trial", "conj-whole-bilinear", "inner-fv",
         "inner-vf", "inner-uv", "inner-vu", "inner-vec-uv", "inner-vec-vu", "inner-grad", "inner-grad-swapped", "dot-wV", "dot-Vw",
         "dot-w-conjV", "dot-conjV-w", "dot-UV", "dot-gradu-gradv", "dot-matrix-conjV", "outer-VU", "outer-UV", "outer-scalar", "outer-Vw",
         "outer-wV", "sum-conj-mismatch"]
